@@ -70,6 +70,11 @@ class World(object):
                         # registered under a custom name only ("name: custom name used in the __jsonclass__ attribute")
                         self.cfg.classes.add(link.cls, "Alias_" + link.cls.__name__)
                         self.aliased.add(link.cls)
+                        if rng.random() < 0.5:
+                            # ... while ANOTHER local class (an older generation, a factory-made twin) is registered
+                            # under the very name this class carries
+                            twin = type(link.cls.__name__, (object,), {"__module__": "__main__", "twin_marker": True})
+                            self.cfg.classes.add(twin)
                     else:
                         self.cfg.classes.add(link.cls)
         # RPC loop
